@@ -90,6 +90,19 @@ Proof. exact number_sound. Qed.
 Print Assumptions C02_string_literals_exact.
 Print Assumptions C02_number_tokens_only.
 
+(* RFC 8259 requires the text to be UTF-8, the grammar requires the denoted string to be UTF-8: for the bytes between
+   the quotes of any string literal of the grammar the two conditions coincide (escapes are ASCII in the text and whole
+   UTF-8 sequences in the meaning), so the grammar does not reject any RFC 8259 string and accepts no ill-formed text *)
+Theorem C02_string_is_utf8_iff_its_text_is : forall b s, jstring_body b s -> utf8_valid b = utf8_valid s.
+Proof. exact body_utf8. Qed.
+Print Assumptions C02_string_is_utf8_iff_its_text_is.
+
+(* "last duplicate key wins": looking a name up in the object denoted by a member list gives the value of the last
+   member with that name *)
+Theorem C02_last_duplicate_key_wins : forall ms k, assoc_lookup k (assoc_of_list ms) = last_binding k ms.
+Proof. exact object_last_duplicate_wins. Qed.
+Print Assumptions C02_last_duplicate_key_wins.
+
 (* ---- the grammar is inhabited by the spellings the printer never emits: derivations built by hand ---- *)
 (* between the quotes: the eight two-character escapes (quote, backslash, /, b, f, n, r, t), then \u00e9, \u{00E9}, the pair \uD83D\ude00,
    \uDC00 (unpaired low), the raw control character 0x01, \uD800 (unpaired high, last in the string) *)
